@@ -91,7 +91,14 @@ class Routine(Schedule, CommentableMixin):
         is_eq = super().__eq__(other)
         is_eq = is_eq and self.name == other.name
         is_eq = is_eq and self.is_program == other.is_program
-        is_eq = is_eq and self.return_symbol == other.return_symbol
+        # The return symbols belong to the symbol tables of the respective
+        # routines (which have already been compared) so they are different
+        # objects even when the routines are the same (e.g. for a copy).
+        if self.return_symbol is None or other.return_symbol is None:
+            is_eq = is_eq and self.return_symbol is other.return_symbol
+        else:
+            is_eq = is_eq and (self.return_symbol.name.lower() ==
+                               other.return_symbol.name.lower())
 
         return is_eq
 
